@@ -91,6 +91,7 @@ def run(ctx):
     exe, model = build(ctx)
     pr = ctx.proofs("c05", "C05Theorems.v")
     pr_seg = ctx.proofs("c05", "C05SegTheorems.v")
+    pr_enc = ctx.proofs("c05", "C05EncTheorems.v")
     ctx.notes["model_coverage"] = ("AddEmsg / AddChild / boxes put in front directly are ops of the H and G histories (the model computes the "
                                    "children layout; observable lay=), corr kind L runs them on created, empty and decoded fragments; "
                                    "O cases include truns of 1023..1100 mostly uniform samples (DecodeTrun's 1024 guard)")
@@ -155,6 +156,7 @@ def run(ctx):
                       "model/implementation disagree on %d cases" % len(mism), no_input=True)
     ctx.proof_violation_if_broken(pr, "c05 search: %d evaluations, no failing input" % ctx.notes.get("search_evaluations", 0))
     ctx.proof_violation_if_broken(pr_seg, "c05 search: %d evaluations, no failing input" % ctx.notes.get("search_evaluations", 0))
+    ctx.proof_violation_if_broken(pr_enc, "c05 search: %d evaluations, no failing input" % ctx.notes.get("search_evaluations", 0))
     ctx.cov["rule"] = ("corr O: %d random (tfhd, trun flag word, first-sample-flags, 0-6 samples from small pools, trex or none) through "
                        "OptimizeTfhdTrun, the real tfhd/trun codecs (encoded bytes compared byte for byte) and AddSampleDefaultValues; corr D: as many "
                        "encoded trun/tfhd boxes with mutated flags/version/count/length through DecodeBox and DecodeBoxSR vs the model decoders; corr H: one case per fragment of as many random "
